@@ -65,6 +65,8 @@ var c20Binds = []struct{ key, action string }{
 	{"alt-j", "change-preview-window(up|down,40%|right)"}, {"alt-k", "clear-query"},
 	{"alt-l", "toggle-all"}, {"alt-m", "change-preview(PV " + c20Template + ")"},
 	{"alt-n", "half-page-up"}, {"alt-o", "pos(2)"},
+	// the input is replaced: the line under the cursor keeps its number but not its text
+	{"alt-p", "reload(GEN 1)"}, {"alt-q", "reload-sync(GEN 0)"},
 }
 
 func genC20Plan(r *zsim.Rng) *sysPlan {
@@ -74,6 +76,10 @@ func genC20Plan(r *zsim.Rng) *sysPlan {
 	p.Lines = lineSpec{N: n, Seed: r.Seed53(), Shape: r.Intn(4)}
 	if r.Chance(1, 2) {
 		p.Multi = -1
+	}
+	p.Gens = []lineSpec{p.Lines, {N: []int{n, n, r.Range(1, n+3)}[r.Intn(3)], Seed: r.Seed53(), Shape: r.Intn(4)}}
+	if r.Chance(1, 3) {
+		p.GenProc = []procSpec{{Chunks: []int{r.Range(1, 50)}, DelaysMs: []int{[]int{0, 20, 200, 600}[r.Intn(4)]}}}
 	}
 	tmpl := "PV " + c20Template
 	if r.Chance(1, 6) {
@@ -309,8 +315,13 @@ func c20Settle(r *sysRun, busy bool) {
 	}
 	wantN := strconv.Itoa(int(st.Current))
 	wantLine := ""
-	if int(st.Current) >= 0 && int(st.Current) < len(r.lines) {
-		wantLine = r.lines[st.Current]
+	loaded, complete := r.loadedInput()
+	if !complete {
+		c.count("settle.input_incomplete", 1)
+		return
+	}
+	if int(st.Current) >= 0 && int(st.Current) < len(loaded) {
+		wantLine = loaded[st.Current]
 	}
 	var wantSel []string
 	for _, s := range st.Selected {
